@@ -12,7 +12,7 @@ def judge(ops, cb):
     bad = []
     io = max(i for i, o in enumerate(ops) if o.startswith("opendev"))
     h0 = cb[io - 1][0] if ops[io - 1].startswith("imghash") else None
-    devro = ops[io].split()[2] == "1"; volro = ops[io + 1].split()[3] == "1"
+    devro = ops[io].split()[2] == "1" or "wprotect 0 1" in ops[:io]; volro = ops[io + 1].split()[3] == "1"
     ro = devro or volro
     handles = {}
     for i in range(io, len(ops)):
